@@ -224,12 +224,14 @@ class LDAWrapper(LinearSolver):
                 # Remove all previous components that are already in the database (orthogonalize)
                 xadd = xnew[isel, i]
                 badd = (A @ xnew[..., i])[isel, ...]
+                bnrm0 = np.linalg.norm(badd)
                 for x, b in zip(x_data, b_data):
                     beta = badd @ b.conj() / (b.conj() @ b)
                     badd = badd - beta * b  # Not in-place, as the stored vectors may be complex
                     xadd = xadd - beta * x
                 bnrm = np.linalg.norm(badd)
-                if not np.isfinite(bnrm) or bnrm == 0:
+                # Skip vectors that (numerically) depend on the database, normalizing them would only amplify noise
+                if not np.isfinite(bnrm) or bnrm <= self.tol * bnrm0:
                     continue
                 badd /= bnrm
                 xadd /= bnrm
